@@ -66,6 +66,13 @@ func hostileCorpus(seed int64) ([][]byte, map[string]reflect.Type) {
 		[]byte{0x7a, 0x79, 0x51, 0x91, 0x51, 0x90},                   // list of (list holding itself, outer list)
 		[]byte{0x71, 0x04, 0x5b, 0x69, 0x6e, 0x74, 0x51, 0x90},       // typed list [int holding itself
 		[]byte{0x48, 0x48, 0x51, 0x91, 0x51, 0x90, 0x5a, 0x91, 0x5a}, // map keyed by a map that refers to both
+		// chunked strings / binaries with empty, growing and shrinking chunks
+		[]byte{0x52, 0x00, 0x00, 0x03, 'a', 'b', 'c'},
+		[]byte{0x52, 0x00, 0x01, 'a', 0x52, 0x00, 0x00, 0x53, 0x00, 0x02, 'b', 'c'},
+		[]byte{0x52, 0x00, 0x00, 0x52, 0x00, 0x00, 0x00},
+		[]byte{0x41, 0x00, 0x00, 0x23, 1, 2, 3},
+		[]byte{0x41, 0x00, 0x01, 9, 0x41, 0x00, 0x00, 0x42, 0x00, 0x02, 8, 7},
+		[]byte{0x7a, 0x52, 0x00, 0x00, 0x01, 'x', 0x41, 0x00, 0x00, 0x20},
 		// cyclic untyped containers handed to TYPED destinations (type names the type map knows)
 		[]byte{0x7a, 0x51, 0x90, 0x71, 0x06, '[', 'i', 'n', 't', '3', '2', 0x51, 0x90}, // [self, [int32 holding the outer list]
 		[]byte{0x71, 0x06, '[', 'i', 'n', 't', '3', '2', 0x79, 0x51, 0x91},             // [int32 holding a list that holds itself
@@ -304,7 +311,7 @@ func runHostile(seed int64, tier, vectors, out string, shards, only int) {
 		items = append(items, item{b, -1, "rand", "", 0})
 	}
 	wk := startWorker(seed)
-	n, crashes := 0, 0
+	n, crashes, hangs := 0, 0, 0
 	distinct := map[string]bool{}
 	samples := []interface{}{}
 	wfCount, deepest := 0, 0
@@ -334,6 +341,9 @@ func runHostile(seed int64, tier, vectors, out string, shards, only int) {
 		if only >= 0 && id != only {
 			continue
 		}
+		if hangs >= 12 {
+			continue // a dozen recorded hangs are a verdict; waiting 10 s for each further one adds nothing
+		}
 		if len(it.in) > 65536 {
 			it.in = it.in[:65536]
 		}
@@ -358,6 +368,7 @@ func runHostile(seed int64, tier, vectors, out string, shards, only int) {
 			wk.cmd.Wait()
 			wk = startWorker(seed)
 		} else if res.Hang == 1 {
+			hangs++
 			wk.cmd.Wait()
 			wk = startWorker(seed)
 		}
